@@ -718,9 +718,10 @@ func (join *invertibleTypeJoin) Next() (bool, error) {
 
 		// If we reach this line and there are no docs to yield, it likely means that a child
 		// document was found but not a parent - this can happen when inverting the join, for
-		// example when working with a secondary index.
+		// example when working with a secondary index. The remaining documents of the first
+		// side may still have something to yield.
 		if len(join.docsToYield) == 0 {
-			return false, nil
+			return join.Next()
 		}
 	}
 
